@@ -218,7 +218,8 @@ theorem T_C18 (v : Variant) (attr : Toks) (item : Item) (out : Out)
     simp only [traitImplBlock, zipAll_map_right]
     rw [hf, zipAll_map_right]
     clear himpl hf h2 h
-    generalize t.members.filterMap (fun mm => match mm with | .fn f => some f | _ => none) = fs
+    simp only [TraitItem.fns]
+    generalize t.members.filterMap TraitMember.fn? = fs
     induction fs with
     | nil => rfl
     | cons f rest ih =>
